@@ -151,6 +151,7 @@ func main() {
 			} else {
 				rep.Add(id+".coverage-386", "load GOARCH=386", "-", OK, "")
 			}
+			c.vtaCrossCheck(id + ".reach-crosscheck")
 			rep.Selftest = runSelftest(*repo, vdir, id)
 			if st, ok := rep.Selftest["broken"].([]string); ok && len(st) > 0 {
 				fmt.Printf("CHECKER-BROKEN: self-test failed for %s: %s\n", id, strings.Join(st, "; "))
